@@ -85,7 +85,6 @@ TIERS = {
         ('arrays-d1', _c('arrays', 1)),
         ('arrays-d2', _c('arrays', 2, lite=True)),
         ('deq-d1', _c('deq', 1)),
-        ('mixed-d2-full', _c('mixed', 2)),
         ('mixed-d2-obs', _c('mixed', 2, lite=True, obs_terminal=False)),   # histories go on after observers
         ('keys7-d3', _c('keys7', 3)),
         ('arrays2-d3', _c('arrays2', 3, lite=True)),
@@ -1074,7 +1073,7 @@ def replay_component(job):
                                                  [f'{a}{tla.to_tla(list(ar))}' for a, ar, _ in hist[s]], step=text,
                                                  expected=[tla.to_tla(_plain(x[-1])) for x in dsts_abs]))
             fails += group_fails
-            stats['nontrivial'].add((action, args, tuple(src_abs[h - 1] for h in operands(action, args))))
+            stats['nontrivial'].add(hash((action, args, tuple(src_abs[h - 1] for h in operands(action, args)))))
             if not group_fails and len(chosen_all) == 1:
                 d = dsts[next(iter(chosen_all))]
                 if d not in hist:
@@ -1085,7 +1084,6 @@ def replay_component(job):
                     else:
                         queue.append(d)
     stats['reached'] = [d for d in hist if out.get(d)]
-    stats['nontrivial'] = len(stats['nontrivial'])
     return fails, stats
 
 
@@ -1156,9 +1154,10 @@ def run_config(chk, name, consts, tlc=None):
     split = len(inits) < 2 * procs          # few components: parallelise below the first operation
     jobs = [(sid, sid, None, split) for sid in inits]
     n_fail = 0
-    tot = dict(groups=0, evals=0, edges=0, nontrivial=0)
+    tot = dict(groups=0, evals=0, edges=0)
     oracle = []
     reached = set()
+    distinct = _G.setdefault('distinct', set())      # across the configurations of one run
     while jobs:
         results = core.pool_map(_worker, core.chunked(jobs, max(1, min(len(jobs), 4 * procs))), procs=procs)
         jobs = []
@@ -1167,6 +1166,7 @@ def run_config(chk, name, consts, tlc=None):
                 for k in tot:
                     tot[k] += stats[k]
                 oracle += stats['oracle']
+                distinct.update(stats['nontrivial'])
                 reached.update(stats['reached'])
                 jobs += stats['children']
                 for smp in stats['samples']:
@@ -1183,7 +1183,7 @@ def run_config(chk, name, consts, tlc=None):
     chk.add('transitions', len(g.edges))
     chk.add('traces_validated_against_impl', tot['edges'])
     chk.add('evaluations', tot['evals'])
-    chk.add('distinct_nontrivial', tot['nontrivial'])
+    chk.coverage['distinct_nontrivial'] = len(distinct)
     chk.add('unreached_states', tot['unreached'])
     chk.coverage.setdefault('configs', []).append(dict(
         name=name, constants=consts, states=r.distinct, edges=len(g.edges), replayed_edges=tot['edges'],
@@ -1191,7 +1191,8 @@ def run_config(chk, name, consts, tlc=None):
         failing_checks=n_fail))
     print(f'  {name}: states={r.distinct} edges={len(g.edges)} replayed={tot["edges"]} evals={tot["evals"]} '
           f'unreached={tot["unreached"]} failing_checks={n_fail} tlc={r.wall_s:.1f}s', flush=True)
-    _G.clear()
+    for k in ('states', 'out', 'nseed'):
+        _G.pop(k, None)
 
 
 def run(chk: core.Check) -> None:
